@@ -34,6 +34,9 @@ pub struct RunStats {
     pub sched_points_other: u64,
     pub sched_points_instr_loc: u64,
     pub sched_points_edge: u64,
+    pub sched_points_atomic: u64,
+    pub atomic_ops_seen: u64,
+    pub futex_waits_as_yield: u64,
     pub edges_seen: u64,
     pub log_records: u64,
     pub decisions: u64,
@@ -50,6 +53,9 @@ thread_local! {
     static THIN: Cell<u32> = const { Cell::new(0) };
     static COUNTER: Cell<u32> = const { Cell::new(0) };
     static EDGE_THIN: Cell<u32> = const { Cell::new(0) };
+    static ATOMIC_THIN: Cell<u32> = const { Cell::new(0) };
+    static ATOMIC_COUNTER: Cell<u64> = const { Cell::new(0) };
+    static FUTEX_YIELDS: Cell<u64> = const { Cell::new(0) };
     static EDGE_COUNTER: Cell<u64> = const { Cell::new(0) };
     static EDGE_SWITCHES: Cell<u64> = const { Cell::new(0) };
     static PHASE: Cell<Phase> = const { Cell::new(Phase::Other) };
@@ -155,6 +161,31 @@ pub fn edge_point() {
     }
 }
 
+/// Called right before every atomic operation of the instrumented parallel build (tsanrt.rs).
+#[inline]
+pub fn atomic_point() {
+    if !ACTIVE.with(|a| a.get()) {
+        return;
+    }
+    let n = ATOMIC_COUNTER.with(|c| {
+        let n = c.get().wrapping_add(1);
+        c.set(n);
+        n
+    });
+    let k = ATOMIC_THIN.with(|t| t.get());
+    if k == 0 || n % k as u64 != 0 {
+        return;
+    }
+    #[cfg(not(feature = "native"))]
+    {
+        if !may_switch() {
+            return;
+        }
+        STATS.with(|s| s.borrow_mut().sched_points_atomic += 1);
+        shuttle::thread::sleep(std::time::Duration::ZERO);
+    }
+}
+
 /// SanitizerCoverage hooks (see sim/rustc-wrap.sh): only crate walrus_par is instrumented.
 #[no_mangle]
 pub extern "C" fn __sanitizer_cov_trace_pc_guard_init(_start: *mut u32, _stop: *mut u32) {}
@@ -220,6 +251,70 @@ pub unsafe extern "C" fn getrandom(buf: *mut u8, len: usize, flags: u32) -> isiz
             len as isize
         }
         None => libc::syscall(libc::SYS_getrandom, buf, len, flags) as isize,
+    }
+}
+
+// ---------------------------------------------------------------------------
+// blocking seam: every blocking primitive of std (Mutex, RwLock, Condvar, Once, thread parking) ends in a
+// futex WAIT issued through libc's `syscall`.  Inside a simulated task an OS-level wait would park the only OS
+// thread the simulation has (the holder of the lock is a suspended task on the same thread).  This definition
+// takes precedence over libc's at link time and turns "futex wait" into "yield to the simulated scheduler and
+// return": a spurious wake-up, which the futex contract allows and every caller handles by re-checking.
+// Everything else, and every call made outside a simulated task, goes to the kernel unchanged.
+
+#[cfg(all(not(miri), not(feature = "native"), target_arch = "x86_64", target_os = "linux"))]
+mod sysseam {
+    use super::*;
+    /// per run: after this many futex waits turned into yields the wait is handed to the kernel after all
+    /// (a genuine deadlock of the code under test then shows up as STUCK-IN-SIM instead of spinning for ever)
+    pub const FUTEX_YIELD_BUDGET: u64 = 400_000;
+    const FUTEX_WAIT: i32 = 0;
+    const FUTEX_WAIT_BITSET: i32 = 9;
+    const FUTEX_CMD_MASK: i32 = !(128 | 256);
+
+    #[inline]
+    unsafe fn raw6(n: libc::c_long, a1: usize, a2: usize, a3: usize, a4: usize, a5: usize, a6: usize) -> isize {
+        let ret: isize;
+        core::arch::asm!(
+            "syscall",
+            inlateout("rax") n as isize => ret,
+            in("rdi") a1, in("rsi") a2, in("rdx") a3, in("r10") a4, in("r8") a5, in("r9") a6,
+            lateout("rcx") _, lateout("r11") _,
+            options(nostack)
+        );
+        ret
+    }
+
+    /// # Safety
+    /// Same contract as libc's variadic `syscall` (integer / pointer arguments only, as on x86-64 Linux).
+    #[no_mangle]
+    pub unsafe extern "C" fn syscall(n: libc::c_long, a1: usize, a2: usize, a3: usize, a4: usize, a5: usize, a6: usize) -> libc::c_long {
+        if n == libc::SYS_futex {
+            let cmd = (a2 as i32) & FUTEX_CMD_MASK;
+            if (cmd == FUTEX_WAIT || cmd == FUTEX_WAIT_BITSET) && ACTIVE.with(|a| a.get()) && may_switch() {
+                let word = &*(a1 as *const std::sync::atomic::AtomicU32);
+                if word.load(std::sync::atomic::Ordering::SeqCst) != a3 as u32 {
+                    *libc::__errno_location() = libc::EAGAIN;
+                    return -1;
+                }
+                let used = FUTEX_YIELDS.with(|c| {
+                    let v = c.get() + 1;
+                    c.set(v);
+                    v
+                });
+                if used <= FUTEX_YIELD_BUDGET {
+                    STATS.with(|s| s.borrow_mut().futex_waits_as_yield += 1);
+                    shuttle::thread::yield_now();
+                    return 0;
+                }
+            }
+        }
+        let r = raw6(n, a1, a2, a3, a4, a5, a6);
+        if (-4095..0).contains(&r) {
+            *libc::__errno_location() = -r as i32;
+            return -1;
+        }
+        r as libc::c_long
     }
 }
 
@@ -551,6 +646,9 @@ mod simexec {
                 ACTIVE.with(|a| a.set(true));
                 THIN.with(|t| t.set(knobs.log_thin));
                 EDGE_THIN.with(|t| t.set(knobs.edge_thin));
+                ATOMIC_THIN.with(|t| t.set(knobs.atomic_thin));
+                ATOMIC_COUNTER.with(|c| c.set(0));
+                FUTEX_YIELDS.with(|c| c.set(0));
                 EDGE_COUNTER.with(|c| c.set(0));
                 EDGE_SWITCHES.with(|c| c.set(0));
                 COUNTER.with(|c| c.set(0));
@@ -568,7 +666,9 @@ mod simexec {
                 let pool = rayon_core::sim::end();
                 let mut stats = STATS.with(|s| s.borrow().clone());
                 stats.edges_seen = EDGE_COUNTER.with(|c| c.get());
+                stats.atomic_ops_seen = ATOMIC_COUNTER.with(|c| c.get());
                 EDGE_THIN.with(|t| t.set(0));
+                ATOMIC_THIN.with(|t| t.set(0));
                 let _ = done_tx.send(());
                 (r.err().map(panic_text), stats, pool)
             })
@@ -619,6 +719,9 @@ mod simexec {
         stats.sched_points_other = tl_stats.sched_points_other;
         stats.sched_points_instr_loc = tl_stats.sched_points_instr_loc;
     stats.sched_points_edge = tl_stats.sched_points_edge;
+    stats.sched_points_atomic = tl_stats.sched_points_atomic;
+    stats.atomic_ops_seen = tl_stats.atomic_ops_seen;
+    stats.futex_waits_as_yield = tl_stats.futex_waits_as_yield;
     stats.edges_seen = tl_stats.edges_seen;
         stats.log_records = tl_stats.log_records;
         let value = slot.lock().unwrap().take();
@@ -628,7 +731,7 @@ mod simexec {
     /// shuttle installs its own (chatty) panic hook once, at the first execution;
     /// trigger that now and then put the silent hook back.
     pub fn warm_up() {
-        let knobs = SimKnobs { threads: 2, steal_p: 65536, log_thin: 1, strategy: Strategy::Random, sched_seed: 0, edge_thin: 0 };
+        let knobs = SimKnobs { threads: 2, steal_p: 65536, log_thin: 1, strategy: Strategy::Random, sched_seed: 0, edge_thin: 0, atomic_thin: 0 };
         let o = run_sim(&knobs, None, Some(0), || {
             let (a, b) = rayon_core::join(|| 1, || 2);
             a + b
